@@ -372,6 +372,6 @@ def run(ck):
         "byte level is bounded by L (a 9-byte BigSize cannot complete with a value inside L=7); the token level "
         "covers the wide encodings with symbolic boundary classes only",
         "allocation guard: an entry point observed allocating > 1 MiB + 4x input twice is not called again on inputs "
-        "that claim >= 2^30 bytes (recorded, counted in coverage.tlv.calls_not_executed_by_allocation_guard)",
+        "that claim >= 2^24 bytes (recorded, counted in coverage.tlv.calls_not_executed_by_allocation_guard)",
         "message part: position classes head/mid/tail of the decoder's own read boundaries; one random byte/bit "
         "pattern per cell and repetition (seeded); zlib-encoded short channel ids only as the generators build them"]
